@@ -148,6 +148,7 @@ fn job_scenario(iters: Vec<Vec<Vec<Sym>>>, conn: Conn, layout: Layout, bound: us
         nontrivial: iters.iter().any(|it| it.iter().filter(|s| s.iter().any(|x| matches!(x, Sym::W(_)))).count() >= 2),
         unbounded: false,
         loop_body: false,
+        sometimes: vec![],
     }
 }
 
@@ -170,6 +171,63 @@ fn build(tier: Tier) -> Vec<Scenario> {
     } else {
         vec![(Layout::Local(2), 2), (Layout::Local(3), 1), (Layout::Remote(vec![1, 1]), 1), (Layout::Remote(vec![2, 1]), 1)]
     };
+    // two-input blocks: with batches waiting on both inputs, either side can be served next -
+    // a side that is never looked at while the other has data holds its watermarks (and its end)
+    // back. Both inputs are filled before the block runs; every answer of the select is explored.
+    for (nl, nr) in [(3usize, 2usize), (1, 3)] {
+        let mut sc = crate::e2::select_scenario(
+            format!("C17/two-input-service/L{nl}-R{nr}"),
+            format!("merge of a left input with {nl} timestamped elements and a right input with {nr}, each followed by its watermark, both inputs filled before the block starts, every answer of the two-way select"),
+            Arc::new(move || {
+                let side = |n: usize, base: i64| -> Vec<Vec<StreamElement<i64>>> {
+                    let mut b: Vec<Vec<StreamElement<i64>>> = vec![];
+                    for k in 0..n {
+                        b.push(vec![StreamElement::Timestamped(base + k as i64, k as i64)]);
+                        b.push(vec![StreamElement::Watermark(k as i64)]);
+                    }
+                    b.push(vec![StreamElement::FlushAndRestart]);
+                    b.push(vec![StreamElement::Terminate]);
+                    b
+                };
+                let env = renoir::StreamContext::new(renoir::RuntimeConfig::local(1).unwrap());
+                let s1 = env.stream(ScriptSource::<i64>::new(vec![], Replication::One));
+                let s2 = env.stream(ScriptSource::<i64>::new(vec![], Replication::One));
+                let out = crate::e2::drive_binary(s1.merge(s2).verif_into_chain(), vec![side(nl, 0)], vec![side(nr, 100)]);
+                let data: Vec<i64> = out.iter().filter_map(|e| if let StreamElement::Timestamped(v, _) = e { Some(*v) } else { None }).collect();
+                log(Ev::Note("service-order", data.clone()));
+                if data.len() != nl + nr {
+                    return Some(Fail::new("c17-two-input-conservation", format!("merge emitted {:?}", data)));
+                }
+                None
+            }),
+        );
+        let order = |r: &crate::rt::ExecResult| -> Vec<i64> {
+            r.log.iter().find_map(|e| if let Ev::Note("service-order", v) = e { Some(v.clone()) } else { None }).unwrap_or_default()
+        };
+        sc.sometimes = vec![
+            (
+                "c17-side-starved".to_string(),
+                "is an element of the right input served before the last element of the left input (the right input is starved while the left one has data)".to_string(),
+                Arc::new(move |r| {
+                    let o = order(r);
+                    let last_left = o.iter().rposition(|v| *v < 100);
+                    let first_right = o.iter().position(|v| *v >= 100);
+                    matches!((last_left, first_right), (Some(l), Some(f)) if f < l)
+                }),
+            ),
+            (
+                "c17-side-starved".to_string(),
+                "is an element of the left input served before the last element of the right input (the left input is starved while the right one has data)".to_string(),
+                Arc::new(move |r| {
+                    let o = order(r);
+                    let last_right = o.iter().rposition(|v| *v >= 100);
+                    let first_left = o.iter().position(|v| *v < 100);
+                    matches!((last_right, first_left), (Some(l), Some(f)) if f < l)
+                }),
+            ),
+        ];
+        out.push(sc);
+    }
     for (layout, bound) in layouts {
         for set in &seq_sets {
             for conn in [Conn::Shuffle, Conn::GroupBy, Conn::Broadcast] {
